@@ -13,15 +13,36 @@ import (
 func vrtHarness_C07_silenceTime() {
 	const bound = 20 * time.Second // "tens of seconds at most": twice the longest liveness timeout (10 s)
 	kind := vrtChoice(3)
+	shortFirst := kind == 1 && vrtChoice(2) == 1 // UDP: a datagram too short to be a DNS message arrives, then nothing
 	var conns []*vrtConn
-	t := vrtMkTransport(kind, func(ctx context.Context) (NetConn, error) {
+	dial := func(ctx context.Context) (NetConn, error) {
 		var c *vrtConn
 		vrtAtomic(func() {
 			c = &vrtConn{stream: kind != 1, deadlines: true}
 			conns = append(conns, c)
+			if shortFirst {
+				go func() {
+					vrtDaemon()
+					vrtAwait(func() bool { return len(c.frames) > 0 }, func() { c.serverSend([]byte{1, 2, 3, 4, 5}) })
+					vrtCover("short datagram, then silence", true)
+				}()
+			}
 		})
 		return c, nil
-	})
+	}
+	var t vrtT
+	if kind == 1 {
+		// as NewUpstream configures plain UDP: a 5-minute idle timeout
+		t = NewPipelineTransport(PipelineOpts{MaxConcurrentQueryWhileDialing: 4, DialContext: func(ctx context.Context) (DnsConn, error) {
+			c, err := dial(ctx)
+			if err != nil {
+				return nil, err
+			}
+			return NewDnsConn(TraditionalDnsConnOpts{MaxConcurrentQuery: 4, IdleTimeout: 5 * time.Minute}, c), nil
+		}})
+	} else {
+		t = vrtMkTransport(kind, dial)
+	}
 	// natively the caller's own deadline (22 s) is reached only if the transport never gives up
 	ctx, cancel := context.WithTimeout(context.Background(), bound+2*time.Second)
 	defer cancel()
